@@ -20,6 +20,11 @@ RULE = ("every modulator order (BPSK, QPSK, PSK 2..2^12 "
         "1-D/2-D float array, int array) and a packet length 1..10^4 "
         "[10^6 thorough]; non-trivial = M >= 4 and at least one SNR with "
         "SER in (1e-12, 0.5); distinct = SHA-1 of the case description")
+RULE += (" Added after the white-box review: "
+         "on every generated object also: a returned array overwritten "
+         "by the caller and asked again, a second packet length for "
+         "the same SNR (array and scalar) ")
+
 LEVEL_TEXT = ("Generated-input search (Hypothesis, seeded, sharded) plus "
               "complete enumeration of all modulator orders on a fixed SNR "
               "grid: range, monotonicity, limit, BER/SER ordering, PER and "
